@@ -223,6 +223,16 @@ StepCrop(regs, e) ==
             (IF model THEN (IF r.ok THEN (IF sliver THEN <<>> ELSE rep) ELSE Fail("TOOL.model", "model crop divides by zero", "")) ELSE <<>>)
             \o ObsChk(e, "C12.crop", tree)>>
 
+\* make_local(): outside the listed properties.  The representation is compared with the model of the code
+\* (IMakeLocal: only g0 is reset) and the outcome is COUNTED (coverage cell), never reported; the register leaves the
+\* domain of the curve-level clauses because C12 does not say what the curve is afterwards.
+MkLocalModelled(regs, e) == IsR1(e.g) /\ regs[e.dst].ok /\ regs[e.dst].ri
+StepMkLocal(regs, e) ==
+  LET d == regs[e.dst]
+      im == IF IsR1(e.g) THEN SC(e.K)!IMakeLocal(d.i) ELSE d.i
+      same == MkLocalModelled(regs, e) /\ RepChk(e, im) = <<>>
+  IN <<[regs EXCEPT ![e.dst] = [t |-> d.t, i |-> im, ok |-> FALSE, ri |-> same]], <<>>>>
+
 StepEval(regs, e) ==
   LET s == regs[e.src]
   IN <<regs, IF ~s.ok THEN <<>>
@@ -238,6 +248,7 @@ Step(regs, e) ==
     [] e.op = "catl" -> StepCat(regs, e, TRUE)
     [] e.op = "catg" -> StepCat(regs, e, FALSE)
     [] e.op = "crop" -> StepCrop(regs, e)
+    [] e.op = "mklocal" -> StepMkLocal(regs, e)
     [] e.op = "eval" -> StepEval(regs, e)
     [] e.op = "arclen" -> <<regs, IF regs[e.src].ok /\ FinV(e.out) THEN ArcChk(e, regs[e.src].t) ELSE <<>>>>
     [] OTHER -> <<regs, <<[clause |-> "TOOL.unknown_op", err |-> e.op, tol |-> ""]>>>>
@@ -245,6 +256,8 @@ Step(regs, e) ==
 Stratum(regs, e) ==
   CASE e.op = "eval" -> (IF regs[e.src].ok THEN regs[e.src].t.k ELSE "skipped")
     [] e.op = "crop" -> (IF e.loc = 1 THEN "loc" ELSE "glob")
+    [] e.op = "mklocal" -> (IF ~MkLocalModelled(regs, e) THEN "unmodelled"
+                            ELSE IF RepChk(e, SC(e.K)!IMakeLocal(regs[e.dst].i)) = <<>> THEN "as-modelled" ELSE "differs-from-model")
     [] OTHER -> "-"
 
 ---------------------------------------------------------------------------
